@@ -191,9 +191,32 @@ func runAliasMode(seed int64, n int, tr *transcript) {
 						continue
 					}
 					b2 := newCallerBuf(r, key2, r.Intn(3))
+					ka, kb := b.key(), b2.key()
+					switch r.Intn(3) {
+					case 1: // both bounds cut from one request buffer, back to back
+						req := append(append([]byte{}, key...), key2...)
+						b = &callerBuf{arr: req, off: 0, n: len(key), capLimit: len(req), snapshot: append([]byte{}, req...)}
+						b2 = &callerBuf{arr: req, off: len(key), n: len(key2), capLimit: len(key2), snapshot: append([]byte{}, req...)}
+						ka, kb = req[:len(key)], req[len(key):]
+						tr.stats["alias-range-adjacent-bounds"]++
+					case 2: // one bound is a prefix slice of the other bound's buffer
+						if len(key2) > 1 {
+							cut := 1 + r.Intn(len(key2)-1)
+							lit, key = hexLit(key2[:cut]), key2[:cut]
+							buf := append([]byte{}, key2...)
+							b = &callerBuf{arr: buf, off: 0, n: cut, capLimit: len(buf), snapshot: append([]byte{}, buf...)}
+							b2 = &callerBuf{arr: buf, off: 0, n: len(buf), capLimit: len(buf), snapshot: append([]byte{}, buf...)}
+							ka, kb = buf[:cut], buf
+							if r.Intn(2) == 0 {
+								ka, kb = kb, ka
+								lit, lit2 = lit2, lit
+							}
+							tr.stats["alias-range-prefix-bounds"]++
+						}
+					}
 					var got []kv
 					out := safely(func() string {
-						for k, v := range raw.Range(b.key(), b2.key()) {
+						for k, v := range raw.Range(ka, kb) {
 							got = append(got, kv{hexLit(k), v})
 						}
 						return renderKVs(got)
